@@ -1208,6 +1208,150 @@ def inline_single_use_temps(func: ast.FunctionDef) -> bool:
     return changed
 
 
+def _ends_in_exit(body) -> bool:
+    return bool(body) and isinstance(body[-1], (ast.Return, ast.Raise,
+                                                 ast.Continue, ast.Break))
+
+
+def flatten_else_after_exit(func: ast.FunctionDef) -> bool:
+    """``if c: ...; return X  else: REST`` -> ``if c: ...; return X`` + REST
+    (the else branch of a test whose body always leaves is dedented)."""
+    changed = False
+
+    def walk(stmts):
+        nonlocal changed
+        out = []
+        for st in stmts:
+            for f in ("body", "orelse", "finalbody"):
+                sub = getattr(st, f, None)
+                if isinstance(sub, list) and sub and isinstance(
+                        sub[0], ast.stmt):
+                    setattr(st, f, walk(sub))
+            for h in getattr(st, "handlers", []) or []:
+                h.body = walk(h.body)
+            if isinstance(st, ast.If) and st.orelse and _ends_in_exit(
+                    st.body):
+                rest = st.orelse
+                st.orelse = []
+                out.append(st)
+                out.extend(rest)
+                changed = True
+            else:
+                out.append(st)
+        return out
+
+    func.body = walk(func.body)
+    return changed
+
+
+def loops_to_comprehensions(func: ast.FunctionDef) -> bool:
+    """``x = []`` directly followed by ``for t in it: [if c:] x.append(e)``
+    (also set / dict building) -> ``x = [e for t in it if c]`` when neither
+    the loop variables nor x are needed for anything else."""
+    loads: dict[str, int] = {}
+    for n in ast.walk(func):
+        if isinstance(n, ast.Name) and isinstance(n.ctx, ast.Load):
+            loads[n.id] = loads.get(n.id, 0) + 1
+    changed = False
+
+    def empty_kind(v):
+        if isinstance(v, ast.List) and not v.elts:
+            return "list"
+        if isinstance(v, ast.Dict) and not v.keys:
+            return "dict"
+        if isinstance(v, ast.Call) and isinstance(v.func, ast.Name) and \
+                not v.args and not v.keywords and v.func.id in (
+                "list", "dict", "set"):
+            return v.func.id
+        return None
+
+    def walk(stmts):
+        nonlocal changed
+        out = []
+        i = 0
+        while i < len(stmts):
+            st = stmts[i]
+            for f in ("body", "orelse", "finalbody"):
+                sub = getattr(st, f, None)
+                if isinstance(sub, list) and sub and isinstance(
+                        sub[0], ast.stmt):
+                    setattr(st, f, walk(sub))
+            for h in getattr(st, "handlers", []) or []:
+                h.body = walk(h.body)
+            nxt = stmts[i + 1] if i + 1 < len(stmts) else None
+            tgt = None
+            if isinstance(st, ast.Assign) and len(st.targets) == 1 and \
+                    isinstance(st.targets[0], ast.Name):
+                tgt, val = st.targets[0].id, st.value
+            elif isinstance(st, ast.AnnAssign) and isinstance(
+                    st.target, ast.Name) and st.value is not None:
+                tgt, val = st.target.id, st.value
+            kind = empty_kind(val) if tgt else None
+            if kind and isinstance(nxt, ast.For) and not nxt.orelse:
+                conds = []
+                body = nxt.body
+                while len(body) == 1 and isinstance(body[0], ast.If) and \
+                        not body[0].orelse:
+                    conds.append(body[0].test)
+                    body = body[0].body
+                new_val = None
+                if len(body) == 1:
+                    b = body[0]
+                    if kind == "list" and isinstance(b, ast.Expr) and \
+                            isinstance(b.value, ast.Call) and isinstance(
+                            b.value.func, ast.Attribute) and \
+                            b.value.func.attr == "append" and isinstance(
+                            b.value.func.value, ast.Name) and \
+                            b.value.func.value.id == tgt and len(
+                            b.value.args) == 1 and not b.value.keywords:
+                        new_val = ast.ListComp(b.value.args[0], [])
+                    elif kind == "set" and isinstance(b, ast.Expr) and \
+                            isinstance(b.value, ast.Call) and isinstance(
+                            b.value.func, ast.Attribute) and \
+                            b.value.func.attr == "add" and isinstance(
+                            b.value.func.value, ast.Name) and \
+                            b.value.func.value.id == tgt and len(
+                            b.value.args) == 1:
+                        new_val = ast.SetComp(b.value.args[0], [])
+                    elif kind == "dict" and isinstance(b, ast.Assign) and \
+                            len(b.targets) == 1 and isinstance(
+                            b.targets[0], ast.Subscript) and isinstance(
+                            b.targets[0].value, ast.Name) and \
+                            b.targets[0].value.id == tgt:
+                        new_val = ast.DictComp(b.targets[0].slice, b.value, [])
+                if new_val is not None:
+                    loop_names = {n.id for n in ast.walk(nxt.target)
+                                  if isinstance(n, ast.Name)}
+                    inside = [n for n in ast.walk(nxt)
+                              if isinstance(n, ast.Name)]
+                    # x only as the receiver; loop variables not used outside
+                    uses_x = sum(1 for n in inside if n.id == tgt)
+                    outside_ok = all(
+                        loads.get(v, 0) == sum(
+                            1 for n in inside if n.id == v
+                            and isinstance(n.ctx, ast.Load))
+                        for v in loop_names)
+                    no_effects = not any(isinstance(
+                        n, (ast.NamedExpr, ast.Yield, ast.YieldFrom,
+                            ast.Await)) for n in ast.walk(nxt))
+                    if uses_x == 1 and outside_ok and no_effects and \
+                            len(loop_names) > 0:
+                        new_val.generators = [ast.comprehension(
+                            nxt.target, nxt.iter, conds, 0)]
+                        new = clone(st)
+                        new.value = ast.copy_location(new_val, nxt)
+                        out.append(new)
+                        changed = True
+                        i += 2
+                        continue
+            out.append(st)
+            i += 1
+        return out
+
+    func.body = walk(func.body)
+    return changed
+
+
 def canonicalise(func: ast.FunctionDef, selfname: str | None = None,
                  slots: set[str] = frozenset(),
                  rebound: set[str] = frozenset(),
@@ -1215,9 +1359,12 @@ def canonicalise(func: ast.FunctionDef, selfname: str | None = None,
                  view_props: set[str] = frozenset(),
                  ) -> tuple[ast.FunctionDef, bool]:
     new = clone(func)
+    ch = flatten_else_after_exit(new)
     c = _Canon()
     new = c.visit(new)
-    ch = c.changed
+    ch |= c.changed
+    ch |= flatten_else_after_exit(new)
+    ch |= loops_to_comprehensions(new)
     ch |= propagate_constants(new)
     ch |= propagate_function_aliases(new, module_funcs)
     ch |= eliminate_slot_aliases(new, selfname, slots, rebound, view_props)
